@@ -51,11 +51,12 @@ func main() {
 		Dir:  repo,
 		Env:  append(os.Environ(), "GOFLAGS=-mod=mod", "GOPROXY=off", "GOSUMDB=off", "GOTOOLCHAIN=local"),
 	}
-	pkgs, err := packages.Load(cfg, "./x/...", "./app/...", "./types/...", "./utils/...", "./ethereum/...", "./crypto/...")
+	pkgs, err := packages.Load(cfg, "./x/...", "./app/...", "./types/...", "./utils/...", "./ethereum/...", "./crypto/...", "./indexer/...", "./server/...", "./rpc/...")
 	if err != nil {
 		fmt.Fprintln(os.Stderr, "load:", err)
 		os.Exit(2)
 	}
+	const mod = "github.com/EscanBE/evermint/v12/"
 	byPath := map[string]*packages.Package{}
 	for _, p := range pkgs {
 		byPath[p.PkgPath] = p
@@ -63,9 +64,18 @@ func main() {
 			fail("package %s: %v", p.PkgPath, e)
 		}
 	}
-	const mod = "github.com/EscanBE/evermint/v12/"
-
-	census(repo, pkgs)
+	// the nondeterminism census covers the consensus packages only (not rpc / indexer / server)
+	var consensus []*packages.Package
+	for _, p := range pkgs {
+		rel := strings.TrimPrefix(p.PkgPath, mod)
+		for _, pre := range []string{"x/", "app", "types", "utils", "ethereum/", "crypto/"} {
+			if strings.HasPrefix(rel, pre) {
+				consensus = append(consensus, p)
+				break
+			}
+		}
+	}
+	census(repo, consensus)
 	anteChain(repo, byPath[mod+"app/antedl"])
 	disabledNested(byPath[mod+"app/antedl"])
 	nestedCap(byPath[mod+"app/antedl/cosmoslane"])
@@ -77,6 +87,7 @@ func main() {
 	feemarketFacts(byPath[mod+"x/feemarket/keeper"])
 	chainConfigFacts(byPath[mod+"x/evm/types"])
 	cpcExecutorWrites(byPath[mod+"x/cpc/keeper"])
+	indexerFacts(byPath[mod+"indexer"], byPath[mod+"server"])
 
 	// the pinned fork (module cache)
 	forkDir := forkDirOf(repo)
@@ -919,4 +930,41 @@ func cpcExecutorWrites(p *packages.Package) {
 		fail("no Execute methods found in x/cpc/keeper")
 	}
 	facts["cpcExecutorWrites"] = res
+}
+
+// ---------------------------------------------------------------------------------------------
+// indexer: one write batch per block; the restart rule of the service.
+func indexerFacts(idx, srv *packages.Package) {
+	if idx == nil || srv == nil {
+		fail("indexer / server packages not loaded")
+		return
+	}
+	ib := findMethod(idx, "KVIndexer", "IndexBlock")
+	var batch []string
+	for _, c := range callsIn(ib) {
+		if strings.Contains(c, "NewBatch") || strings.HasSuffix(c, "batch.Write") || strings.HasSuffix(c, ".Set") || c == "saveTxResult" {
+			batch = append(batch, c)
+		}
+	}
+	facts["indexBlockBatchCalls"] = batch
+	os := findMethod(srv, "EVMIndexerService", "OnStart")
+	var conds []string
+	if os != nil {
+		ast.Inspect(os, func(n ast.Node) bool {
+			if is, ok := n.(*ast.IfStmt); ok {
+				c := condString(is.Cond)
+				if strings.Contains(c, "lastIndexedBlock") {
+					var assigns []string
+					for _, st := range is.Body.List {
+						if as, ok := st.(*ast.AssignStmt); ok && len(as.Lhs) == 1 && len(as.Rhs) == 1 {
+							assigns = append(assigns, exprString(as.Lhs[0])+"="+exprString(as.Rhs[0]))
+						}
+					}
+					conds = append(conds, c+" => "+strings.Join(assigns, ";"))
+				}
+			}
+			return true
+		})
+	}
+	facts["indexerRestartRule"] = conds
 }
